@@ -16,11 +16,15 @@ CASE_TIMEOUT = 60
 RULE = ("kind 0: generated programs (raise site x surrounding statements from a pool with markup-like text, non-ASCII, tabs, multi-line "
         "strings and calls, backslash continuations, comments ending in a backslash, f-strings) x origin (file, exec'd source-less code "
         "under ordinary and markup-like file names, module-level code incl. a failure on line 1..4 of its file, a vendor module, files of "
-        "more than 1000 lines) x recursion depth drawn uniformly from 1..60 (self and mutual) x chained causes x 32 messages (incl. CR, FF, "
-        "VT, FS/GS/RS, NEL, U+2028 and a final line break) x 16 exception types (two with a broken __str__) x 4 verbosities x UTF-8 "
+        "more than 1000 lines) x recursion depth drawn uniformly from 1..60 (self and mutual) x chained causes (raise .. from, raised while "
+        "handling; and 14 shapes of __cause__ / __context__ chain linked after the program raised: plain, self-cause, self-context, cycles "
+        "of two by cause / by context, a mixed cycle of three, a cycle behind a link, from None over a context, 3000 links by cause / by "
+        "context, a cause with markup in name and message / with a broken __str__ / offering a solution) x 36 messages (incl. CR, FF, "
+        "VT, FS/GS/RS, NEL, U+2028, a final line break, the same escape twice, two and three backslashes before '<') x 20 exception types (two with a broken __str__; SystemExit, KeyboardInterrupt, a BaseException subclass, an ExceptionGroup) x 4 verbosities x UTF-8 "
         "on/off x plain/ANSI x simple/full x 8 ignore patterns (absolute prefix, everything, nothing, relative fragments that re.match "
         "must NOT honour, the program's own file) x working/home directory; kind 1: the highlighter on real Python files of the "
-        "repository and the standard library and on generated texts (tab-indented, non-ASCII, 1200 lines); kind 2: compact on frame "
+        "repository and the standard library and on generated texts (tab-indented, non-ASCII, 1200 lines, every fourth with CRLF and every "
+        "fourth with lone-CR line ends); kind 2: compact on frame "
         "sequences. non-trivial = distinct (site, origin, recursion, verbosity, message class) / file / sequence")
 TRUSTED = ["tokenize, inspect and crashtest (Inspector, Frame) are outside clikit: their outputs (token streams, frames, file contents) are "
            "INPUTS of the model, taken from the same run; the hypotheses the theorems put on token streams (wf_tokens) are checked on "
@@ -37,9 +41,13 @@ MSGS = ["boom", "", "two\nlines", "naïve é λ ✓", "<error>open", "close</err
         "trailing backslash \\", "back\\<slash", "<fg=red>x</>", "\\", "tab\there", "  padded  ", "<", "ends with <", "</>", "100% {braces}",
         "\x1b[31mred\x1b[0m", "three\n\n  lines\\\nlast", "<fg=nope>y", "\\<b>", "x" * 300,
         # characters str.splitlines() takes for line ends although "\n" is the only one the report knows, and a final line break
-        "a\rb", "a\x0cb", "a\u2028b", "ends\n", "a\x85b", "v\x0bt and fs\x1cgs\x1drs\x1e.", "x\r\ny", "\n"]
+        "a\rb", "a\x0cb", "a\u2028b", "ends\n", "a\x85b", "v\x0bt and fs\x1cgs\x1drs\x1e.", "x\r\ny", "\n",
+        # the same escape more than once in one text; several backslashes before a '<'; '<' and a backslash at the very end
+        "a\\<b\\<c \\<d>", "two \\\\<b> three \\\\\\<", "<<>> \\<\\< <\\", "x<\\\ny\\<\nz\\"]
 EXCS = ["RuntimeError", "ValueError", "KeyError", "Custom", "MarkupName", "ClosingName", "OSError", "SyntaxError", "Lib",
-        "Sol0", "Sol1", "Sol2", "Sol3", "SolSelf", "StrRaises", "StrNone"]
+        "Sol0", "Sol1", "Sol2", "Sol3", "SolSelf", "StrRaises", "StrNone",
+        # "any type": exceptions that are no Exception (what Application.run does not catch is C04's subject; the report must render)
+        "SystemExit", "KeyboardInterrupt", "BaseCustom", "Group"]
 N_PLAIN_EXCS = 9        # EXCS[9:14] offer solutions, EXCS[14:] have a broken __str__
 STR_FAILED = "<exception str() failed>"      # what the report says instead of a message that cannot be had (as CPython's traceback does)
 # solutions offered by the exception (crashtest ProvidesSolution / Solution): title, description, links
@@ -86,6 +94,7 @@ POOL = [
     ['FF = """a', "b\x0cc \x0b d", 'e"""  # form feed and vertical tab inside a multi-line string'],
     ['MF = f"""x', "y", '{1}z"""  # a multi-line f-string whose literal part ends with a line break'],
     ['US = """a\u2028b\x85c', 'd"""'],
+    ["RX = r'\\<a\\<b>' + r'\\\\<'  # \\< twice \\<, then \\\\<"],
 ]
 BODY = [
     ["x = 1"],
@@ -118,11 +127,18 @@ SITES = [
 # ignore patterns: none / the vendor directory (absolute prefix) / everything / nothing / a RELATIVE fragment of the vendor path (re.match
 # anchors at the start: it ignores nothing) / a fragment that matches anywhere only with a leading .* / exactly the program's own file
 IGNORES = [None, "vendor", ".*", "nomatch\\^", "vendor_pkg", "lib\\.py", ".*vendor_pkg", "progfile"]
+# what the rendered exception is chained to (__cause__ / __context__), set on the exception object AFTER the generated program has
+# raised it (so that its own traceback is the program's); every link but the exception itself was really raised (has a traceback).
+# Python allows every one of these shapes and its own traceback printer copes with them; "any cause chain" of the property text
+CHAINS = ["none", "plain-cause", "plain-context", "self-cause", "self-context", "two-cycle-cause", "two-cycle-context",
+          "three-cycle-mixed", "from-none-with-context", "cause-3000-links", "context-3000-links", "markup-cause", "broken-str-cause",
+          "cause-with-solution", "cycle-behind-a-link"]
+LONG_CHAIN = 3000
 
 
 def _case(**kw):
     c = {"kind": 0, "head": [], "body": [], "site": 0, "tail": [], "ind": "    ", "origin": "file", "vendor": 0, "rec": "none", "depth": 1,
-         "msg": 0, "exc": 0, "verb": 0, "utf8": 1, "fmt": "plain", "simple": 0, "ignore": 0, "paths": 0, "pad": 0, "top": 0}
+         "msg": 0, "exc": 0, "verb": 0, "utf8": 1, "fmt": "plain", "simple": 0, "ignore": 0, "paths": 0, "pad": 0, "top": 0, "chain": 0}
     c.update(kw)
     return c
 
@@ -175,9 +191,19 @@ def gen(rng, tier, info):
             for fmt in ("plain", "ansi"):
                 cases.append(_case(origin="module", top=top, verb=v, fmt=fmt, tail=[0, 5] if top % 2 else []))
         cases.append(_case(origin="module-exec", top=top, verb=1))
+        # ... the failing line being the LAST line of a file that does not end with a line break
+        cases.append(_case(origin="module", top=top, verb=3, tail=[], nonl=1))
+        cases.append(_case(origin="module", top=top, verb=0, tail=[], nonl=1, fmt="ansi"))
     # files of more than 1000 lines: four-digit line numbers (and 999 -> 1000 inside one snippet)
     for pad, v, fmt in ((1200, 0, "plain"), (1200, 3, "ansi"), (990, 0, "plain"), (994, 3, "plain"), (1200, 1, "plain")):
         cases.append(_case(pad=pad, verb=v, fmt=fmt, head=[5], rec="self", depth=2))
+    # cause / context chains of every shape (cycles, thousands of links, causes with markup or without a message) x verbosity
+    for ch in range(1, len(CHAINS)):
+        for v in range(4):
+            cases.append(_case(chain=ch, verb=v, msg=rng.randrange(len(MSGS)), fmt="ansi" if (ch + v) % 4 == 0 else "plain"))
+        cases.append(_case(chain=ch, simple=1, verb=rng.randrange(4)))
+        cases.append(_case(chain=ch, verb=1, site=9))        # raised inside an except block: Python sets a context of its own
+        cases.append(_case(chain=ch, verb=3, site=10, exc=EXCS.index("Sol1")))   # raised with `from`: an explicit cause of its own
     # --- kind 0, random part
     n_rand = 350 if quick else 6000
     if tier == "search":
@@ -192,7 +218,8 @@ def gen(rng, tier, info):
             vendor=rng.randrange(2), rec=rng.choice(["none", "none", "self", "mutual"]), depth=rng.randint(1, 60),
             msg=rng.randrange(len(MSGS)), exc=rng.randrange(len(EXCS)), verb=rng.randrange(4), utf8=rng.randrange(2),
             fmt=rng.choice(["plain", "plain", "ansi"]), simple=int(rng.random() < 0.1), ignore=rng.randrange(len(IGNORES)), paths=rng.randrange(3),
-            pad=rng.choice([0] * 30 + [996, 1100]), top=(rng.randint(1, 4) if origin in ("module", "module-exec") and rng.random() < 0.3 else 0)))
+            pad=rng.choice([0] * 30 + [996, 1100]), top=(rng.randint(1, 4) if origin in ("module", "module-exec") and rng.random() < 0.3 else 0),
+            chain=(rng.randrange(1, len(CHAINS)) if rng.random() < 0.25 else 0)))
     n0 = len(cases)
     # --- kind 1: the highlighter alone on real files
     files = _corpus_files(quick)
@@ -207,7 +234,15 @@ def gen(rng, tier, info):
                    ind=("\t" if k % 2 == 0 else "  "), rec=rng.choice(["none", "mutual"]), pad=(1200 if k % 6 == 5 else 0))
         text, site_line = build_source(cc)
         n = len(text.split("\n"))
-        for line in sorted(set([1, 3, site_line, n - 1] + ([999, 1000, 1001] if cc["pad"] else []))):
+        # a text read without newline translation: Windows line ends (every fourth text), a lone CR (every fourth)
+        if k % 3 == 2:
+            text = text.rstrip("\n") + "  # no line break at the end of the file"
+            n = len(text.split("\n"))
+        if k % 4 == 1:
+            text = text.replace("\n", "\r\n")
+        elif k % 4 == 3:
+            text = text.replace("\n", "\r")
+        for line in sorted(set([1, 3, site_line, n - 1, n] + ([999, 1000, 1001] if cc["pad"] else []))):
             cases.append({"kind": 1, "file": "generated-%d" % k, "text": text, "line": line, "before": rng.choice([2, 4]), "after": rng.choice([2, 4]),
                           "utf8": rng.randrange(2)})
     n1 = len(cases) - n0
@@ -220,7 +255,7 @@ def gen(rng, tier, info):
         cases.append({"kind": 2, "seq": [rng.randrange(rng.choice([2, 3, 5])) for _ in range(rng.randrange(5, 40))]})
     info["exhaustive"] = False
     info["distribution"] = {"renders": n0, "highlighter_files": len(files), "highlighter_cases": n1, "compact_sequences": len(cases) - n0 - n1,
-                            "sites": len(SITES), "pool_statements": len(POOL), "messages": len(MSGS), "exception_types": len(EXCS),
+                            "cause_chain_shapes": len(CHAINS), "sites": len(SITES), "pool_statements": len(POOL), "messages": len(MSGS), "exception_types": len(EXCS),
                             "source-less file names": len(FNAMES)}
     return cases
 
@@ -296,7 +331,7 @@ def build_source(c):
             out += ["raise EXC"]
         for p in c["tail"]:
             out += _expand(POOL[p], ind, 0)
-        return "\n".join(out) + "\n", c["top"]
+        return "\n".join(out) + ("" if c.get("nonl") else "\n"), c["top"]
     out += ["P%d = %d  # filler" % (i, i) for i in range(c.get("pad", 0))]
     for p in c["head"]:
         out += _expand(POOL[p], ind, 0)
@@ -347,6 +382,14 @@ def make_exc(kind, msg):
         return OSError(2, msg)
     if name == "SyntaxError":
         return SyntaxError(msg, ("some<b>file.py", 3, 1, "x = </b>\n"))
+    if name == "SystemExit":
+        return SystemExit(msg)
+    if name == "KeyboardInterrupt":
+        return KeyboardInterrupt(msg)
+    if name == "BaseCustom":
+        return type("Stop<b>", (BaseException,), {})(msg)
+    if name == "Group":
+        return ExceptionGroup(msg, [ValueError("inner </b>"), KeyError("k")])
     if name == "StrRaises":
         class NoMessage(Exception):
             def __str__(self):
@@ -450,6 +493,77 @@ def run_program(c):
     return {"dir": d, "exc": e, "src": src, "path": path, "site_line": site_line, "vendor_dir": vendor_dir}
 
 
+def _raised(e):
+    """e with a traceback of its own (raised and caught here)"""
+    try:
+        raise e
+    except BaseException as x:  # noqa
+        return x
+
+
+def link_chain(e, kind):
+    """chains the exception e (already raised by the generated program: its traceback is not touched) to causes / contexts"""
+    name = CHAINS[kind]
+    if name == "none":
+        return
+    mk = lambda m: _raised(ValueError(m))
+    cut = lambda x: (setattr(x, "__cause__", None), setattr(x, "__context__", None), setattr(x, "__suppress_context__", False))
+    if name == "plain-cause":
+        e.__cause__ = mk("the cause")
+    elif name == "plain-context":
+        cut(e)
+        e.__context__ = mk("the context")
+    elif name == "self-cause":                    # raise e from e
+        e.__cause__ = e
+    elif name == "self-context":
+        cut(e)
+        e.__context__ = e
+    elif name == "two-cycle-cause":               # raise first from second, where second had been raised from first
+        b = mk("second")
+        b.__cause__ = e
+        e.__cause__ = b
+    elif name == "two-cycle-context":
+        cut(e)
+        b = mk("second")
+        b.__context__ = e
+        e.__context__ = b
+    elif name == "three-cycle-mixed":
+        cut(e)
+        b, d = mk("second"), mk("third")
+        e.__context__ = b
+        b.__cause__ = d
+        d.__context__ = e
+    elif name == "from-none-with-context":        # raise e from None inside an except block
+        e.__context__ = _raised(KeyError("k"))
+        e.__cause__ = None
+        e.__suppress_context__ = True
+    elif name in ("cause-3000-links", "context-3000-links"):
+        last = None
+        for n in range(LONG_CHAIN):               # a retry loop: raise Error(n) from last
+            x = mk("attempt %d" % n)
+            if name.startswith("cause"):
+                x.__cause__ = last
+            else:
+                x.__context__ = last
+            last = x
+        if name.startswith("cause"):
+            e.__cause__ = last
+        else:
+            cut(e)
+            e.__context__ = last
+    elif name == "markup-cause":
+        e.__cause__ = _raised(type("Boom</error>", (Exception,), {})("</b> <error>open \\"))
+    elif name == "broken-str-cause":
+        e.__cause__ = _raised(make_exc(EXCS.index("StrRaises"), "x"))
+    elif name == "cause-with-solution":
+        e.__cause__ = _raised(make_exc(EXCS.index("Sol2"), "y"))
+    elif name == "cycle-behind-a-link":           # e -> a -> b -> a
+        a, b = mk("a"), mk("b")
+        a.__cause__ = b
+        b.__cause__ = a
+        e.__cause__ = a
+
+
 def _tokens(text):
     """the token stream the highlighter sees for this text: list of model tokens, or 'TokenError' / 'Other'"""
     import tokenize
@@ -530,6 +644,7 @@ def run_impl(c):
     e = r["exc"]
     if not isinstance(e, BaseException):
         raise RuntimeError("generated program did not raise: %r" % (e,))
+    link_chain(e, c.get("chain", 0))
     # working / home directory
     if c["paths"] == 1:
         os.chdir(r["dir"])
@@ -666,7 +781,9 @@ def canon_model(c, m):
 
 
 # ------------------------------------------------------------------ the property on the real observations
-SNIP = re.compile(r"^(\s*)(→ |> |  )\s*(\d+)(│|\|) (.*)$")
+# a numbered line of a snippet: an optional marker, the line number, one delimiter character, the source text (the arrow and
+# the bar are what the renderer uses today; any other marker / delimiter reads the same)
+SNIP = re.compile(r"^(\s*)([^\w\s]{1,2} |  )\s*(\d+)([^\w\s]) (.*)$")
 SGR = re.compile("\x1b\\[[0-9;]*m")
 
 
@@ -813,42 +930,42 @@ def oracle(c, o):
             herr, _ = stream_hypotheses(fl_["tok"])
             if herr:
                 return "token-stream-hypothesis-fails:" + herr
-    out = o["out"]
+    # What follows is the STATEMENT on the text that was written, decoded as leniently as the statement allows: the wording of
+    # headings ("Stack trace"), of the location line ("at file:line in function"), blank lines, what else the report says
+    # (solutions, the source line under a frame at -v, snippets under frames at debug) are not the property's business - the
+    # bytes are compared with the model, which is where such a change shows (as a divergence).
+    out, msg, name = o["out"], o["msg"], o["name"]
     if c["fmt"] == "ansi":
-        # decorated bytes: the tie compares them; the property is read on the undecorated text, which must be the same text
-        # (SGR sequences inside the message itself are removed on both sides)
-        if SGR.sub("", out) != SGR.sub("", o["plain_out"]):
-            return "decorated-text-differs-from-plain"
-        # ... and every clause below is then evaluated on that undecorated rendering of the same exception
-        out = o["plain_out"]
-    msg, name = o["msg"], o["name"]
+        # 'style markup aside': the clauses are read on the text without its SGR sequences (a message that holds such a
+        # sequence itself loses it on both sides)
+        out, msg = SGR.sub("", out), SGR.sub("", msg)
     strip_lines = lambda s: [l.rstrip(" ") for l in s.split("\n")]
     if c["simple"]:
         if o["msg_ok"] and strip_lines(out) != strip_lines(msg + "\n"):
             return "simple-report-is-not-the-message"
         return None
     lines = out.split("\n")
-    if not any(l.strip() == name.strip() for l in lines):
+    # contains the class name (outside the code it shows) ...
+    if not any(name.strip() in l for l in lines if not SNIP.match(l)):
         return "class-name-missing"
+    # ... and the message text: its lines, in this order, on consecutive lines of the report (whatever else stands on them)
     want = [l.strip(" ") for l in msg.split("\n")]
-    got = [l.strip(" ") for l in lines]
     # (an exception whose __str__ fails has no message text: the clause asks nothing of it - the report must still render)
-    if o["msg_ok"] and not any(got[i:i + len(want)] == want for i in range(len(got) - len(want) + 1)):
+    if o["msg_ok"] and not any(all(want[k] in lines[i + k] for k in range(len(want))) for i in range(len(lines) - len(want) + 1)):
         return "message-text-missing"
-    # what the solutions say is text too
-    squash = lambda t: " ".join(t.split())
-    flat = squash(out)
-    for t, d, ls in o["sols"]:
-        for piece in [t.rstrip(".")] + d.split("\n") + list(ls):
-            if squash(piece) and squash(piece) not in flat:
-                return "solution-text-missing"
-    # the snippet of the failing frame: the numbered lines after the last 'at file:line in function' line
+    # the snippet of the failing frame: the numbered lines after the last line that names the failing frame's line number and
+    # function; if no such line can be made out, the last run of numbered lines of the report
     last = o["frames"][-1]
-    at = [i for i, l in enumerate(lines) if l.startswith("  at ") and (":%d in " % last["lineno"]) in l]
-    if not at:
-        return "location-line-missing"
+    at = [i for i, l in enumerate(lines) if not SNIP.match(l) and re.search(r"(^|\D)%d(\D|$)" % last["lineno"], l) and last["func"].strip() in l]
+    start = None
+    if at:
+        start = at[-1] + 1
+    else:
+        runs = [i for i, l in enumerate(lines) if SNIP.match(l) and (i == 0 or not SNIP.match(lines[i - 1]))]
+        if runs:
+            start = runs[-1]
     block = []
-    for l in lines[at[-1] + 1:]:
+    for l in (lines[start:] if start is not None else []):
         m = SNIP.match(l)
         if not m:
             break
@@ -864,27 +981,19 @@ def oracle(c, o):
         return "snippet-missing"
     # the stack trace: frames under an ignored path only at debug verbosity; the others all listed
     verbose, debug = c["verb"] >= 1, c["verb"] >= 3
-    head = lines[:at[-1]]
-    listed = []
-    for l in head:
-        m = re.match(r"^\s+(\d+)  (.*):(\d+) in (.*)$", l)
-        if m:
-            listed.append((m.group(2).strip(), int(m.group(3)), m.group(4).strip()))
-    if verbose and not debug:
-        # under each listed frame: its source line, as it is
-        for i, l in enumerate(head):
-            m = re.match(r"^\s+(\d+)  (.*):(\d+) in (.*)$", l)
-            if m and i + 1 < len(head):
-                cands = [f for f in o["frames"] if f["lineno"] == int(m.group(3)) and f["func"].strip() == m.group(4).strip()]
-                if cands and not any(head[i + 1].strip() == f["line"].strip() for f in cands):
-                    return "frame-line-not-verbatim"
+    head = lines[:(start - 1 if at else start) if start is not None else len(lines)]
+    rel = lambda p: p.replace(o["cwd"] + os.path.sep, "").replace(o["home"] + os.path.sep, "~" + os.path.sep) if o["cwd"] != "/" else \
+        p.replace(o["home"] + os.path.sep, "~" + os.path.sep)
+    ident = lambda f: (rel(f["file"]).strip(), f["lineno"], f["func"].strip())
+
+    def names(l, f):
+        # a line of the listing names the frame f: its file (as the report abbreviates it), its line number, its function
+        fi_, ln_, fn_ = ident(f)
+        return (not SNIP.match(l)) and fi_ in l and fn_ in l and re.search(r"(^|\D)%d(\D|$)" % ln_, l) is not None
     if debug:
-        # under each listed frame: a snippet that numbers consecutively and marks that frame's line
+        # a snippet shown under a listed frame numbers consecutively and marks that frame's line (when there is one)
         for i, l in enumerate(head):
-            m = re.match(r"^\s+(\d+)  (.*):(\d+) in (.*)$", l)
-            if not m:
-                continue
-            cands = [f for f in o["frames"] if f["lineno"] == int(m.group(3)) and f["func"].strip() == m.group(4).strip()]
+            cands = [f for f in o["frames"][:-1] if names(l, f)]
             if not cands:
                 continue
             blk = []
@@ -895,35 +1004,27 @@ def oracle(c, o):
                 blk.append((m2.group(2).strip() != "", int(m2.group(3)), m2.group(5)))
             fr = cands[0]
             fl2 = o["files"][fr["fi"]]
-            if blk:
+            if blk and len(set(ident(f) for f in cands)) == 1:
                 r = check_snippet(blk, fl2["text"], fl2["tok"], fr["lineno"], "stack-frame")
                 if r:
                     return r
-            elif fl2["text"] and isinstance(fl2["tok"], list) and 1 <= fr["lineno"] <= len(_src_lines(fl2["text"])):
-                return "snippet-missing:stack-frame"
-    rel = lambda p: p.replace(o["cwd"] + os.path.sep, "").replace(o["home"] + os.path.sep, "~" + os.path.sep) if o["cwd"] != "/" else \
-        p.replace(o["home"] + os.path.sep, "~" + os.path.sep)
-    stack = o["frames"][:-1]
     if not debug:
         stack_kept = [f for f in o["frames"] if not f["ignored"]]
         # every frame that is not ignored is listed, except the frame of the snippet (the last one: where it was raised)
         expect = [f for f in o["frames"][:-1] if not f["ignored"]] if verbose else []
         for f in o["frames"]:
-            if f["ignored"] and any(x == (rel(f["file"]).strip(), f["lineno"], f["func"].strip()) for x in listed) and \
-                    not any((g["file"], g["lineno"], g["func"]) == (f["file"], f["lineno"], f["func"]) for g in stack_kept):
+            if f["ignored"] and any(names(l, f) for l in head) and not any(ident(g) == ident(f) for g in stack_kept):
                 return "ignored-frame-listed"
     else:
-        expect = stack
+        expect = o["frames"][:-1]
     if verbose:
         for f in expect:
-            if (rel(f["file"]).strip(), f["lineno"], f["func"].strip()) not in listed:
+            if not any(names(l, f) for l in head):
                 if not debug and o["frames"][-1]["ignored"] and f is expect[-1]:
                     # known finding: the exception was raised INSIDE ignored code - the raising frame is filtered out, the
                     # listing then drops the last frame it is given (meant to be the snippet's), i.e. the caller's
                     return "caller-frame-lost-when-raised-in-ignored-code"
                 return "frame-missing-from-stack-trace"
-    elif listed:
-        return "stack-trace-at-normal-verbosity"
     return None
 
 
@@ -932,7 +1033,8 @@ def nontrivial_key(c, o):
         return ["hl", c["file"]]
     if c["kind"] == 2:
         return ["compact", c["seq"]] if len(set(c["seq"])) < len(c["seq"]) else None
-    return [c["site"], c["origin"], c["rec"], min(c["depth"], 3), c["verb"], c["msg"], c["exc"], c["simple"], c["fmt"], c["vendor"], c["ignore"]]
+    return [c["site"], c["origin"], c["rec"], min(c["depth"], 3), c["verb"], c["msg"], c["exc"], c["simple"], c["fmt"], c["vendor"], c["ignore"],
+            c.get("chain", 0)]
 
 
 def describe(c):
@@ -942,9 +1044,9 @@ def describe(c):
         return "FrameCollection.compact on frames %r" % (c["seq"],)
     src, site = build_source(c)
     return ("%s(%r) raised at line %d of a generated program (origin %s, vendor call %d, recursion %s depth %d); rendered %s at verbosity %d, "
-            "utf8=%d, %s formatter, ignore pattern %r, paths %d.\n--- source ---\n%s" % (
+            "utf8=%d, %s formatter, ignore pattern %r, paths %d, chained to: %s.\n--- source ---\n%s" % (
                 EXCS[c["exc"]], MSGS[c["msg"]], site, c["origin"], c["vendor"], c["rec"], c["depth"], "simple" if c["simple"] else "full",
-                c["verb"], c["utf8"], c["fmt"], IGNORES[c["ignore"]], c["paths"], src))
+                c["verb"], c["utf8"], c["fmt"], IGNORES[c["ignore"]], c["paths"], CHAINS[c.get("chain", 0)], src))
 
 
 def shrink(c):
@@ -959,9 +1061,9 @@ def shrink(c):
             d = dict(c)
             d[k] = c[k][:i] + c[k][i + 1:]
             yield d
-    for k, v in (("vendor", 0), ("rec", "none"), ("depth", 1), ("ignore", 0), ("paths", 0), ("exc", 0), ("msg", 0), ("site", 0), ("ind", "    "),
+    for k, v in (("chain", 0), ("vendor", 0), ("rec", "none"), ("depth", 1), ("ignore", 0), ("paths", 0), ("exc", 0), ("msg", 0), ("site", 0), ("ind", "    "),
                  ("utf8", 1), ("origin", "file")):
-        if c[k] != v:
+        if c.get(k, v) != v:
             d = dict(c)
             d[k] = v
             yield d
